@@ -292,7 +292,7 @@ TM_UF = {"v": _V, "w": _W, "vt": _Vt, "wt": _Wt}
 def tm_contract_functions():
     """R-mode stand-ins for the exported v, w, vt, wt: fresh applications of
     V, W, Vt, Wt constrained by the value clauses of their contracts (C17
-    verifies the bodies against them):  v >= 0;  0 <= w <= 1;  0 <= wt <= 1.
+    verifies the bodies against them):  v > 0;  0 <= w <= 1;  0 <= wt <= 1.
     The relational clauses (v >= vt >= -v(-x); |vt(x,t) + vt(-x,t)| <= 2t) are
     instantiated by the obligations that use them."""
     def mk(name):
@@ -302,7 +302,7 @@ def tm_contract_functions():
             c = cur()
             a = f(term(x), term(t))
             if name == "v":
-                c.fact(("V", a), a >= 0, "sign", a)
+                c.fact(("V", a), a > 0, "sign", a)
             elif name in ("w", "wt"):
                 c.fact((name, a), z3.And(a >= 0, a <= 1), "sign", a)
             c.apps.setdefault(name, {})[a.get_id()] = (a, term(x), term(t))
